@@ -247,14 +247,20 @@ def rank0(sk, w, v):
     return pv(t.getPayload()) == w + v and t.getPayloadRef() is r
 
 
-def _mk(tree, kind, fn="rw"):
+def _mk(tree, kind, fn="rw", pin=False):
     d = tree_depth(tree) if tree != [] else 2
     ps = names("x", tree_params(tree))
     pre, _, cn = tree_pre(tree, ps)
     extra = names("p", d) + ["w"] + names("q", d) + ["dflt"]
     if fn == "rw2":
         extra = names("p", d) + ["w1"] + names("q", d) + ["w2"]
-    return Ob("%s/%s/%s" % (fn, str(tree).replace(" ", ""), kind), fn, dict(tree=tree, depth=d, kind=kind), ps + extra, pre)
+    name = "%s/%s/%s" % (fn, str(tree).replace(" ", ""), kind)
+    if pin:
+        # the tree's own coordinates are pinned to 10, 20, 30, ... (values, points and written values stay symbolic): a cheaper
+        # quick-tier counterpart of an obligation whose fully symbolic form only fits the thorough tier
+        pre = pre + ["%s == %d" % (c, 10 * (i + 1)) for i, c in enumerate(cn)]
+        name += "/pinned"
+    return Ob(name, fn, dict(tree=tree, depth=d, kind=kind), ps + extra, pre)
 
 
 def obligations(tier):
@@ -270,6 +276,10 @@ def obligations(tier):
             obs.append(_mk(tree, kind))
     for tree in ([1, 2, [1, 1]] if q else [1, 2, 3, [1, 1], [2, 1], [1, 0]]):
         obs.append(_mk(tree, "two", fn="rw2"))
+    if q:
+        for tree in ([1, 1], [2, 1], [[1]], [[1, 1]]):
+            for kind in ("assign", "add"):
+                obs.append(_mk(tree, kind, pin=True))
     for n in ((1, 2, 3) if q else (1, 2, 3, 4)):
         for s in range(n):
             obs.append(Ob("startpos/%d/%d" % (n, s), "startpos", dict(n=n, s=s), names("c", n) + names("v", n) + ["q"], chain_pre(names("c", n))))
